@@ -156,8 +156,14 @@ fn wrappers(ctx: &Ctx, t: &mut Tape<'_>, r: &mut Report) -> CheckResult {
     r.d(|| format!("{ty} key={} iv={} len={len} cuts={} in-place vs {k2:?} prefill={} data={}", tape::hex_short(&key), tape::hex_short(&iv), describe_cuts(&cuts), pre.0, tape::hex_short(&data)));
     let mut a = f.make(Ctor::New, &key, &iv).expect("harness: ctor");
     let mut b = f.make(Ctor::New, &key, &iv).expect("harness: ctor");
-    let oa = run_stream(a.as_mut(), &data, &cuts, &[ApplyKind::InPlace; 5], (0, 0)).map_err(|v| with_sig("C12", &ty, v))?;
-    let ob = run_stream(b.as_mut(), &data, &cuts, &[k2; 5], pre).map_err(|v| with_sig("C12", &ty, v))?;
+    let oa = run_stream_opt(a.as_mut(), &data, &cuts, &[ApplyKind::InPlace; 5], (0, 0));
+    let ob = run_stream_opt(b.as_mut(), &data, &cuts, &[k2; 5], pre);
+    ensure!(oa.is_some() == ob.is_some(), format!("C12/verdict/{ty}"), "in place {} but {k2:?} {}", if oa.is_some() { "accepted" } else { "refused" }, if ob.is_some() { "accepted" } else { "refused" });
+    let (Some(oa), Some(ob)) = (oa, ob) else {
+        r.label("both-refused");
+        r.nontrivial = false;
+        return Ok(());
+    };
     ensure_eq_bytes!(ob, oa, format!("C12/output-stream/{ty}"), "{k2:?} (prefill {}) vs in place, cuts {}", pre.0, describe_cuts(&cuts));
     ensure!(a.core_block_pos() == b.core_block_pos() && a.core_iv_state() == b.core_iv_state(), format!("C12/state/{ty}"), "core state differs");
     let tail = tape::bytes(3, 0x12C, bs + 1);
